@@ -164,8 +164,10 @@ func optOps() []Op {
 // map it fills depends on OmitEmpty, which field plan it uses on UseTags / KeyExact / NestEmbed.
 var coldCounter int64
 
+func nextCold() int64 { return atomic.AddInt64(&coldCounter, 1) }
+
 func coldValue(arg int) any {
-	n := atomic.AddInt64(&coldCounter, 1)
+	n := nextCold()
 	tag := func(js string) reflect.StructTag { return reflect.StructTag(fmt.Sprintf(`json:"%s" cold:"%d"`, js, n)) }
 	inner := reflect.StructOf([]reflect.StructField{
 		{Name: "X", Type: reflect.TypeOf(0), Tag: tag("x")},
